@@ -56,6 +56,10 @@ func (p c07) Run(c *core.Ctx) {
 		p.contributed(c)
 		return
 	}
+	if c.Index%16 == 9 {
+		p.embeddedByName(c)
+		return
+	}
 	// few types => many same-typed providers
 	pool := world.TypesAll
 	k := 2 + c.Rng.Intn(5)
@@ -467,6 +471,41 @@ func (p c07) aliasTag(c *core.Ctx) {
 
 // contributed: a definition that a factory post-processor registers under a name of its choosing (not the
 // name the component would derive for itself) is the component of that name for by-name points and lookups.
+// embeddedByName: a by-name point that is an embedded (anonymous) interface field carrying the tag itself -
+// the decorator layout `type Loud struct { Greeter `wire:"english"` }`: it receives the named component, and
+// it is required like any other point.
+func (p c07) embeddedByName(c *core.Ctx) {
+	g := world.NewG(c.Rng)
+	present := c.Rng.Intn(3) > 0
+	if present {
+		g.AddNode([]int{0, 1, 3, 8}[c.Rng.Intn(4)], "mix-dep")
+	}
+	for x, nx := 0, 1+c.Rng.Intn(3); x < nx; x++ {
+		g.AddNode([]int{0, 1, 3}[c.Rng.Intn(3)], g.FreshName(x)) // other IAs under other names
+	}
+	g.ShuffleOrders()
+	h := &world.EmbedIfaceHolder{}
+	r := world.Start(g.Sc, world.Options{Extra: []any{h}})
+	c.Count("starts", 1)
+	c.Count("embedded_by_name_starts", 1)
+	detail := failDetail(g.Sc, r, map[string]any{"named_component_registered": present})
+	if abnormal(r.Outcome()) {
+		c.Fail("", "holder with an embedded by-name interface point: "+core.Short(r.OutcomeDetail(), 300), detail)
+		return
+	}
+	if present {
+		want, _ := nodeNamed(g.Sc, "mix-dep")
+		if r.Outcome() != "ok" || h.IA != any(r.Nodes[want]) {
+			c.Fail("", fmt.Sprintf("embedded interface `wire:\"mix-dep\"`: outcome %s, the field holds %v, expected the component named mix-dep", r.Outcome(), h.IA), detail)
+			return
+		}
+	} else if r.Outcome() != "error" {
+		c.Fail("", fmt.Sprintf("embedded interface `wire:\"mix-dep\"` (required) and nothing is registered under that name, yet the start outcome is %s (field: %v)", r.Outcome(), h.IA), detail)
+		return
+	}
+	c.Nontrivial(fmt.Sprintf("embeddedbyname|%v|%s", present, g.Sc.GraphSig()))
+}
+
 func (p c07) contributed(c *core.Ctx) {
 	g := world.NewG(c.Rng)
 	h := g.AddRandomNode(world.TypesEagerPlain, 0.2)
